@@ -136,14 +136,27 @@ def showCtx : Option ErrCtx → String
 def showOutcome : Outcome → String
   | .validFirstTry => "valid_first_try" | .healed => "healed" | .degraded => "degraded"
 
-def showCall (c : GenCall Nat Float) : String :=
+/-- The caller's text (`prompt <k>` lines; `letter` = P / T / Q for heal / supervise / tools): the default, the empty
+    string, a text full of completion markers, a long one, one that imitates the loops' own messages. -/
+def promptOf (k : Nat) (letter : String) : String :=
+  match k with
+  | 1 => ""
+  | 2 => "is it DONE? SUCCESS! <7>"
+  | 3 => "<7>" ++ zs 3000
+  | 4 => "Previous output was invalid. Error: <7>\nTool results:\nTool 'x' returned: <8>"
+  | _ => letter ++ "<7>"
+
+/-- the nonces that text carries -/
+def baseOf (k : Nat) : List Nat := match k with | 1 => [] | 4 => [7, 8] | _ => [7]
+
+def showCall (pr : String) (c : GenCall Nat Float) : String :=
   let o := match c.out with | .ok _ => "o" | .raise => "x"
   let f := match c.fold with
     | none => "-" | some .raise => "x" | some (.ok f) => if f.valid then "v" else "i"
-  s!"{showBool (c.prompt = "P<7>")}:{showCtx c.ctx}:{o}{f}"
+  s!"{showBool (c.prompt = pr)}:{showCtx c.ctx}:{o}{f}"
 
-def showHeal (r : HealRun HSt Nat Float) : String :=
-  let calls := showList (r.calls.map showCall)
+def showHeal (pr : String) (r : HealRun HSt Nat Float) : String :=
+  let calls := showList (r.calls.map (showCall pr))
   match r.res with
   | .raise => s!"raise calls={calls}"
   | .ok h =>
@@ -378,27 +391,27 @@ def toolAdvD : ToolAdv TSt Nat Nat TRes where
 
 /-- the nonces a prompt carries: the caller's prompt `<7>`, then per tool result its call id and the
     field that is fed back -/
-def showView (p : PromptView TRes) : String :=
+def showView (base : List Nat) (p : PromptView TRes) : String :=
   match p with
-  | none => "7"
-  | some rs => showNs (7 :: (rs.map fun r => (500 + r.callId) :: r.shown).flatten)
+  | none => showNs base
+  | some rs => showNs (base ++ (rs.map fun r => (500 + r.callId) :: r.shown).flatten)
 
-def showTEv : TEv Nat Nat TRes → String
-  | .tools p (.ok (_, calls)) => s!"T{showView p}:{calls.length}"
-  | .tools p .raise => s!"T{showView p}:x"
+def showTEv (base : List Nat) : TEv Nat Nat TRes → String
+  | .tools p (.ok (_, calls)) => s!"T{showView base p}:{calls.length}"
+  | .tools p .raise => s!"T{showView base p}:x"
   | .exec c (.ok r) => s!"E{c}:{if r.success then "o" else "f"}"
   | .exec c .raise => s!"E{c}:x"
-  | .complete p (.ok _) => s!"C{showView p}:r"
-  | .complete p .raise => s!"C{showView p}:x"
+  | .complete p (.ok _) => s!"C{showView base p}:r"
+  | .complete p .raise => s!"C{showView base p}:x"
 
 /-- `log` is the nucleus's whole `transcription_log` after the call -/
-def showTool (log : List (TLog Nat TRes)) (r : ToolRun TSt Nat Nat TRes) : String :=
+def showTool (base : List Nat) (log : List (TLog Nat TRes × List Nat)) (r : ToolRun TSt Nat Nat TRes) : String :=
   let res := match r.res with
     | none => "out-of-fuel"
     | some .raise => "raise"
     | some (.ok x) => s!"ok {x}"
-  s!"{res} log={showList (log.map fun l => s!"{showView l.prompt}:{l.response}")} " ++
-    s!"evs={showList (r.evs.map showTEv)}"
+  s!"{res} log={showList (log.map fun l => s!"{showView l.2 l.1.prompt}:{l.1.response}")} " ++
+    s!"evs={showList (r.evs.map (showTEv base))}"
 
 def toolTags (cfg : ToolCfg) (r : ToolRun TSt Nat Nat TRes) : String :=
   let base := match r.res with
@@ -431,24 +444,29 @@ structure DSt where
   sw : SwarmSt Nat (List Nat) := ⟨0, [], []⟩
   /-- `transcription_log` of the live `Nucleus` (`nucleus` / `nset` / `ntools` lines) -/
   nlog : List (TLog Nat TRes) := []
+  /-- per entry of `nlog`: the nonces of the caller's text of the call that logged it -/
+  nbase : List (List Nat) := []
+  /-- the caller's text in use (`prompt <k>`) -/
+  pk : Nat := 0
 
-def toolLine (log : List (TLog Nat TRes)) (mi ae hs ha ps ts cs : String) :
-    List (TLog Nat TRes) × String :=
+def toolLine (pk : Nat) (log : List (TLog Nat TRes)) (bases : List (List Nat)) (mi ae hs ha ps ts cs : String) :
+    List (TLog Nat TRes) × List (List Nat) × String :=
   -- hasSchemas: 0 / 1 = stub mitochondria without / with schemas, 3 / 2 = the real Mitochondria without / with a tool
   let cfg : ToolCfg := ⟨limD mi Loops.Gen.defaultMaxIterations, boolOf ae, hs = "1" || hs = "2", boolOf ha⟩
   let s0 : TSt := { ps := scriptOf ps, ts := scriptOf ts, cs := scriptOf cs, realMito := hs = "2" || hs = "3" }
   -- hasSchemas 4: export_tool_schemas() itself raises
   let schemas : Out Bool := if hs = "4" then .raise else .ok cfg.hasSchemas
   let r := nucCallM toolAdvD log s0 (schemas, cfg)
-  (r.1, showTool r.1 r.2.2 ++ " ## " ++ toolTags cfg r.2.2)
+  let bases' := bases ++ List.replicate (r.1.length - log.length) (baseOf pk)
+  (r.1, bases', showTool (baseOf pk) (r.1.zip bases') r.2.2 ++ " ## " ++ toolTags cfg r.2.2)
 
 def stepSlot (st : DSt) (toks : List String) : DSt × String :=
   match toks with
   | ["heal", mr, decay, _mode, gs, fs] =>      -- a fresh loop object, one call
     let s0 : HSt := hScripts (scriptOf gs) (scriptOf fs)
       { mr := limD mr Loops.Gen.defaultMaxRetries, decay := floatD decay 0.1 }
-    let r := (healObjD.call () s0 "P<7>").2.2
-    (st, showHeal r ++ " ## " ++ healTags r)
+    let r := (healObjD.call () s0 (promptOf st.pk "P")).2.2
+    (st, showHeal (promptOf st.pk "P") r ++ " ## " ++ healTags r)
   | ["loop", mr, decay, _mode] =>
     ({ st with hs := { mr := limD mr Loops.Gen.defaultMaxRetries, decay := floatD decay 0.1 } }, "ok")
   | ["hset", "mr", v] => ({ st with hs := { st.hs with mr := limA v } }, "ok")
@@ -456,8 +474,8 @@ def stepSlot (st : DSt) (toks : List String) : DSt × String :=
   | ["hset", _, "new"] => (st, "ok")           -- a callback attribute re-assigned to an equivalent new callable
   | ["hcall", gs, fs] =>
     let a := objStep healObjD.call () st.hs (.assign (hScripts (scriptOf gs) (scriptOf fs)))
-    match objStep healObjD.call () a.2.1 (.call "P<7>") with
-    | (_, s', some r) => ({ st with hs := s' }, showHeal r ++ " ## " ++ healTags r ++ " heal:live")
+    match objStep healObjD.call () a.2.1 (.call (promptOf st.pk "P")) with
+    | (_, s', some r) => ({ st with hs := s' }, showHeal (promptOf st.pk "P") r ++ " ## " ++ healTags r ++ " heal:live")
     | _ => (st, "bad-op")
   | ["swarm", mr, ms, thr] =>
     ({ st with ss := { cfg := ⟨limD mr Loops.Gen.defaultMaxRegenerations, limD ms Loops.Gen.defaultMaxSteps⟩,
@@ -469,20 +487,21 @@ def stepSlot (st : DSt) (toks : List String) : DSt × String :=
   | ["supervise", fs, ss, ms] =>
     let scripts := if ss = "-" then [] else (ss.splitOn "|").map scriptOf
     let a := objStep swarmObjD.call st.sw st.ss (.assign (swScripts (scriptOf fs) scripts (scriptOf ms)))
-    match objStep swarmObjD.call a.1 a.2.1 (.call "T<7>") with
+    match objStep swarmObjD.call a.1 a.2.1 (.call (promptOf st.pk "T")) with
     | (sw', s', some r) =>
       let live := if r.reads.any (fun rm => rm.1 != a.2.1.cfg.maxRegen || (rm.2 != a.2.1.cfg.maxSteps && rm.2 != 0))
         then " swarm:reassigned" else ""
       ({ st with ss := s', sw := sw' }, showSwarm r.toRun ++ " ## " ++ swarmTags a.2.1.cfg r.toRun ++ live)
     | _ => (st, "bad-op")
   | ["tools", mi, ae, hs, ha, ps, ts, cs] =>   -- a fresh nucleus, one call
-    (st, (toolLine [] mi ae hs ha ps ts cs).2)
-  | ["nucleus"] => ({ st with nlog := [] }, "ok")
-  | ["nset", "log", _] => ({ st with nlog := [] }, "ok")     -- `nucleus.transcription_log = []` / `clear_log()`
+    (st, (toolLine st.pk [] [] mi ae hs ha ps ts cs).2.2)
+  | ["prompt", k] => ({ st with pk := natD k 0 }, "ok")      -- the caller's text of the following calls
+  | ["nucleus"] => ({ st with nlog := [], nbase := [] }, "ok")
+  | ["nset", "log", _] => ({ st with nlog := [], nbase := [] }, "ok")     -- `nucleus.transcription_log = []` / `clear_log()`
   | ["nset", _, _] => (st, "ok")                             -- attributes the tool loop does not read
   | ["ntools", mi, ae, hs, ha, ps, ts, cs] =>
-    let r := toolLine st.nlog mi ae hs ha ps ts cs
-    ({ st with nlog := r.1 }, r.2 ++ " tool:live")
+    let r := toolLine st.pk st.nlog st.nbase mi ae hs ha ps ts cs
+    ({ st with nlog := r.1, nbase := r.2.1 }, r.2.2 ++ " tool:live")
   | ["retools", _, _, _] => (st, "ok")   -- re-entrant tool adversary: judged by the harness oracle only
   | ["gtools", _, _] => (st, "ok")       -- tool_calls as a generator object (truthy even when empty): oracle only
   | ["reheal", _, _] => (st, "ok")       -- the generator re-enters heal() on the loop that is calling it: oracle only
